@@ -3593,7 +3593,10 @@ def create_signed_value(
         # - value (base64-encoded)
         # - signature (hex-encoded; no length prefix)
         def format_field(s: str | bytes) -> bytes:
-            return utf8("%d:" % len(s)) + utf8(s)
+            # The length prefix counts bytes (the reader slices bytes),
+            # so encode before measuring.
+            b = utf8(s)
+            return utf8("%d:" % len(b)) + b
 
         to_sign = b"|".join(
             [
